@@ -5,7 +5,7 @@ CONSTANTS
   Vs = {2, 3}
   TVs = {0, 1, 2}
   Widths = {1, 2, 3, 4, 7, 100}
-  MaxItersS = {0, 1, 2, 3, 4}
+  MaxItersS = {0, 1, 2, 3, 4, 5}
   NoEos = NoEos
 INVARIANT ScoreIsChain
 INVARIANT StopsAtFirstEos
